@@ -14,7 +14,7 @@ LEVEL = "exploration"
 RULE = (
     "cases: (a) every ordered tree shape up to 7 (quick) / 10 (thorough) nodes, every node checked, commonancestors on all "
     "pairs and (<= 6 nodes) all triples plus 0/1/repeated arguments; (b) Hypothesis trees up to 60 nodes; (c) mutation "
-    "histories (parent/children assignments and deletions on up to 8 nodes) with all attributes re-checked after every step. "
+    "histories (parent/children assignments and deletions on up to 8 nodes) with all attributes re-checked after every step; (d) chains of 700-3000 nodes (upward-looking attributes) and nodes with 300-2000 children. "
     "Node classes: all of vf/nodes.py (Node, AnyNode, user NodeMixin/LightNodeMixin classes, classes with own __eq__/__bool__/__len__/container behaviour, "
     "SymlinkNode with targets in another tree or - class SelfLinks - in the same tree; for a link the target, the target's root and the link again "
     "are checked right after the link, so neither may disturb the other's answers). "
@@ -204,9 +204,45 @@ def check_deep(case, acc):
     acc.tag("deep_tree_cases")
 
 
+def check_wide(case, acc):
+    """A node with many hundreds of children (a directory listing): every child's attributes and sibling helpers."""
+    make = nodes.factory(case["cls"])
+    width = case["width"]
+    top = make(0)
+    hub = make(1)
+    hub.parent = top
+    kids = [make(2 + i) for i in range(width)]
+    if case.get("via") == "children":
+        hub.children = kids
+    else:
+        for kid in kids:
+            kid.parent = hub
+    below = make(2 + width)
+    below.parent = kids[-1]
+    labels = forest.Labels([top, hub] + kids + [below])
+    picks = sorted({0, 1, 2, width // 2, 254, 255, 256, 257, 258, width - 3, width - 2, width - 1} & set(range(width)))
+    for rounds in range(2):
+        for i in picks:
+            if i < len(kids):
+                check_node(kids[i], labels)
+        check_node(hub, labels)
+        check_node(top, labels)
+        check_node(below, labels)
+        check_common([kids[0], kids[-1]], labels)
+        check_common([below, kids[len(kids) // 2]], labels)
+        # ... and again after the last child left (its left neighbour is the last one now)
+        kids[-1].parent = None
+        kids.pop()
+        picks = [i for i in picks if i < len(kids)] + [len(kids) - 1]
+    acc.nontrivial(True)
+    acc.tag("wide_node_cases")
+
+
 def check_case(case, acc):
     if case["kind"] == "deep":
         return check_deep(case, acc)
+    if case["kind"] == "wide":
+        return check_wide(case, acc)
     make = nodes.factory(case["cls"])
     if case["kind"] == "shape":
         tree = forest.build_tree(case["shape"], make, via=case.get("via", "parent"))
@@ -262,11 +298,18 @@ def plan(tier, seed):
     examples = 150 if tier == "quick" else 2500
     tasks = [{"engine": "enum", "max_nodes": max_nodes, "index": i, "count": nshards * 2} for i in range(nshards * 2)]
     tasks += [{"engine": "hyp", "examples": examples, "seed": seed * 1000 + i} for i in range(nshards)]
+    tasks += [{"engine": "wide", "width": w, "cls": c, "via": v} for w in ((300, 700) if tier == "quick" else (257, 300, 700, 2000)) for c, v in (("Node", "parent"), ("SlotLM", "children"), ("AnyNode", "children"))]
     tasks += [{"engine": "deep", "depth": d, "cls": c} for d in ((700, 1500) if tier == "quick" else (300, 700, 1500, 3000)) for c in ("Node", "SlotLM", "AnyNode")]
     return tasks
 
 
 def run_task(task, acc):
+    if task["engine"] == "wide":
+        case = {"kind": "wide", "width": task["width"], "cls": task["cls"], "via": task["via"]}
+        exc = acc.evaluate(check_case, case, enumerated=False)
+        if exc is not None:
+            acc.add_violation(case, exc)
+        return
     if task["engine"] == "deep":
         case = {"kind": "deep", "depth": task["depth"], "every": 97, "cls": task["cls"]}
         exc = acc.evaluate(check_case, case, enumerated=False)
